@@ -5,6 +5,7 @@
 #if VX_PART < 100
 #include "ops_bit.hpp"
 #include "ops_select.hpp"
+#include "ops_shift.hpp"
 #else
 #include "vx_float.hpp"
 #include "ops_select.hpp"
@@ -126,6 +127,9 @@ struct PerType {
         std::vector<S> amts = as_scalars<S>(r);
         DomainOf<S, DomProd2<S> > d = erase<S>(DomProd2<S>(vals, amts, "values x rotation amounts 0..2*bits+1").swapped());
         Run<V, rotl_by>::go(d, &K); Run<V, rotr_by>::go(d, &K);
+        // one scalar amount for the whole vector: rotl(v, long long) against rotl(x, long long) (seed C16-b changed only this overload)
+        DomainOf<S, DomUniform<S> > du = erase<S>(DomUniform<S>(vals, unsigned(rot_table(B).size()), "values x scalar rotation amounts (0..2*bits+1, k*bits+r, negative, +-2^31, +-2^62, LLONG_MIN/MAX)"));
+        Run<V, rotl_scalar>::go(du, 0); Run<V, rotr_scalar>::go(du, 0);
     }
     static void run_domains(const std::vector<S>& K, const std::vector<S>&, std::integral_constant<unsigned, 8>) {
         unary(erase<S>(DomFull1<S>()), K); binary(erase<S>(DomFull2<S>()), K); ternary(erase<S>(DomFull3<S>()), K);
@@ -138,7 +142,7 @@ struct PerType {
         rot(L, K);
     }
     static void run_domains(const std::vector<S>& K, const std::vector<S>& L, std::integral_constant<unsigned, 32>) {
-        if (opt().thorough) unary(erase<S>(DomFull1<S>()), K); else unary(erase<S>(DomList1<S>(L, "L32")), K);
+        if (exh32()) unary(erase<S>(DomFull1<S>()), K); else unary(erase<S>(DomList1<S>(L, "L32")), K);
         binary(erase<S>(DomProd2<S>(L, L, "L32 x L32")), K); ternary(erase<S>(DomProd3<S>(K, K, K, "K32^3")), K); rot(L, K);
     }
     static void run_domains(const std::vector<S>& K, const std::vector<S>& L, std::integral_constant<unsigned, 64>) {
